@@ -232,13 +232,18 @@ structure Sim (i : Id) (st : St α) (s : Flat α) : Prop where
   fresh : s.o = .fresh ↔ st.seen i = false
   live : s.o = .live ↔ i ∈ st.observers
   liveOk : s.o = .live → st.adoStopped i = false ∧ st.handle i = true
+  noexc : st.stopped = false → st.exception = none
+
+theorem termOf_congr {a b : St α} (h : a.exception = b.exception) : termOf a = termOf b := by
+  unfold termOf; rw [h]
 
 theorem Sim.congr {i : Id} {st st' : St α} {s : Flat α} (h : Sim i st s) (e1 : st'.disposed = st.disposed)
     (e2 : st'.stopped = st.stopped) (e3 : st'.exception = st.exception) (e4 : st'.seen i = st.seen i)
-    (e5 : st'.observers = st.observers) (e6 : st'.adoStopped i = st.adoStopped i) (e7 : st'.handle i = st.handle i) :
+    (e5 : i ∈ st'.observers ↔ i ∈ st.observers) (e6 : st'.adoStopped i = st.adoStopped i) (e7 : st'.handle i = st.handle i) :
     Sim i st' s :=
   ⟨e1.trans h.disp, e2.trans h.stop, fun hd t ht => by have := h.term hd t ht; simpa [termOf, e3] using this,
-   by rw [e4]; exact h.fresh, by rw [e5]; exact h.live, fun ho => by rw [e6, e7]; exact h.liveOk ho⟩
+   by rw [e4]; exact h.fresh, by rw [e5]; exact h.live, fun ho => by rw [e6, e7]; exact h.liveOk ho,
+   by rw [e2, e3]; exact h.noexc⟩
 
 theorem exec_one (cfg : Cfg) (f : Nat) (st : St α) (t : Task α) (ts : List (Task α)) :
     exec cfg (f + 1) st (t :: ts) = exec cfg f (step1 cfg st t).1 (nextAgenda (step1 cfg st t) ts) := rfl
@@ -297,5 +302,451 @@ theorem call_term_live {cfg : Cfg} (hc : FlatCfg cfg) (st : St α) (n : Notif α
   rw [this]
   simp only [nextAgenda, Bool.false_eq_true, if_false, List.append_nil]
   exact exec_bcastTerm hc n hn st.observers _ f hf
+
+set_option linter.unusedSimpArgs false in
+theorem call_sub_eq {cfg : Cfg} (hc : FlatCfg cfg) (st : St α) (hI : SInv st) (j : Id) (f : Nat) :
+    call cfg (f + 4) st (.sub j) =
+      if st.seen j then { st with raisedNow := none }
+      else if st.disposed then
+        finish (callback { st with raisedNow := none, seen := upd st.seen j true, adoStopped := upd st.adoStopped j true } j (.error disposedExn)) j none
+      else if !st.stopped then
+        finish { st with raisedNow := none, seen := upd st.seen j true, observers := st.observers ++ [j], tr := .sub j :: st.tr } j (some .inner)
+      else
+        finish (sadDispose (callback { st with raisedNow := none, seen := upd st.seen j true, adoStopped := upd st.adoStopped j true } j (termOf st)) j) j (some .noop) := by
+  unfold call
+  rw [show (Call.sub j : Call α).toTask = .act none (.sub j) from rfl]
+  by_cases hj : st.seen j = true
+  · simp [exec_one, step1, doSub, hj, nextAgenda, exec_nil]
+  · have hj' : st.seen j = false := by simpa using hj
+    by_cases hd : st.disposed = true
+    · simp [exec_one, step1, doSub, hj', hd, hc.err, nextAgenda, exec_nil, reactions_nil hc]
+    · have hd' : st.disposed = false := by simpa using hd
+      by_cases hs : st.stopped = true
+      · have hfr := (hI.fresh j hj').1
+        cases hx : st.exception with
+        | none =>
+          simp [exec_one, step1, doSub, hj', hd', hs, hx, hc.kind, nextAgenda, exec_nil, reactions_nil hc, deliver, termOf, hfr]
+        | some e =>
+          simp [exec_one, step1, doSub, hj', hd', hs, hx, hc.kind, nextAgenda, exec_nil, reactions_nil hc, deliver, termOf, hfr, hc.err]
+      · have hs' : st.stopped = false := by simpa using hs
+        simp [exec_one, step1, doSub, hj', hd', hs', hc.kind, nextAgenda, exec_nil]
+
+theorem call_unsub_eq (cfg : Cfg) (st : St α) (j : Id) (f : Nat) :
+    call cfg (f + 1) st (.unsub j) = doUnsub { st with raisedNow := none } j := by
+  simp [call, Call.toTask, exec_one, step1, nextAgenda, exec_nil]
+
+theorem call_dispose_eq (cfg : Cfg) (st : St α) (f : Nat) :
+    call cfg (f + 1) st .dispose = subjDispose { st with raisedNow := none } := by
+  simp [call, Call.toTask, exec_one, step1, nextAgenda, exec_nil]
+
+/-- `finish` / `sadDispose` of another observer do not touch what observer `i` can see. -/
+theorem finish_view (st : St α) (j : Id) (h : Option Held) :
+    (finish st j h).disposed = st.disposed ∧ (finish st j h).stopped = st.stopped ∧
+    (finish st j h).exception = st.exception ∧ (finish st j h).seen = st.seen ∧
+    (finish st j h).adoStopped = st.adoStopped ∧ (finish st j h).log = st.log ∧
+    (∀ i, i ≠ j → (finish st j h).handle i = st.handle i) ∧ (finish st j h).handle j = true ∧
+    ((finish st j h).observers = st.observers ∨ (finish st j h).observers = st.observers.erase j) := by
+  unfold finish innerDispose
+  dsimp only
+  repeat' split
+  all_goals simp_all
+
+theorem sadDispose_view (st : St α) (j : Id) :
+    (sadDispose st j).disposed = st.disposed ∧ (sadDispose st j).stopped = st.stopped ∧
+    (sadDispose st j).exception = st.exception ∧ (sadDispose st j).seen = st.seen ∧
+    (sadDispose st j).adoStopped = st.adoStopped ∧ (sadDispose st j).log = st.log ∧
+    (sadDispose st j).handle = st.handle ∧
+    ((sadDispose st j).observers = st.observers ∨ (sadDispose st j).observers = st.observers.erase j) := by
+  unfold sadDispose innerDispose
+  dsimp only
+  repeat' split
+  all_goals simp_all
+
+/-- One history call keeps the agreement and hands `i` exactly what its own reading says. -/
+theorem call_sim {cfg : Cfg} (hc : FlatCfg cfg) (i : Id) {st : St α} {s : Flat α} (hI : SInv st)
+    (h : Sim i st s) (c : Call α) (fuel : Nat) (hf : 2 * st.observers.length + 4 ≤ fuel) :
+    Sim i (call cfg fuel st c) (flatStep i s c).1 ∧
+    (call cfg fuel st c).log i = st.log i ++ (flatStep i s c).2 ∧
+    (call cfg fuel st c).observers.length ≤ st.observers.length + 1 := by
+  obtain ⟨f, rfl⟩ : ∃ f, fuel = f + 4 := ⟨fuel - 4, by omega⟩
+  have hnotlive : s.o ≠ .live → i ∉ st.observers := fun ho hm => ho (h.live.mpr hm)
+  -- emissions on a disposed / terminated subject change nothing
+  have hdead : ∀ (n : Notif α) (c : Call α), c.toTask = .emit n → (s.disp ∨ s.term.isSome = true) →
+      (flatStep i s c = (s, []) → Sim i (call cfg (f + 4) st c) (flatStep i s c).1 ∧
+        (call cfg (f + 4) st c).log i = st.log i ++ (flatStep i s c).2 ∧
+        (call cfg (f + 4) st c).observers.length ≤ st.observers.length + 1) := by
+    intro n c hcn hdt hfs
+    rw [hfs]
+    by_cases hd : st.disposed = true
+    · rw [call_emit_disposed cfg st n (f + 3) hd c hcn]
+      exact ⟨h.congr rfl rfl rfl rfl Iff.rfl rfl rfl, by simp, by simp⟩
+    · have hd' : st.disposed = false := by simpa using hd
+      have hs : st.stopped = true := by
+        rw [h.stop]
+        rcases hdt with h' | h'
+        · simp [h']
+        · simp [h']
+      rw [call_emit_stopped cfg st n (f + 3) hd' hs c hcn]
+      exact ⟨h.congr rfl rfl rfl rfl Iff.rfl rfl rfl, by simp, by simp⟩
+  -- an accepted terminal
+  have hterm : ∀ (n : Notif α) (c : Call α), n.isTerminal = true → c.toTask = .emit n → s.disp = false → s.term = none →
+      (flatStep i s c = ({ s with term := some n, o := if s.o = .live then .done else s.o }, if s.o = .live then [n] else []) →
+        Sim i (call cfg (f + 4) st c) (flatStep i s c).1 ∧
+        (call cfg (f + 4) st c).log i = st.log i ++ (flatStep i s c).2 ∧
+        (call cfg (f + 4) st c).observers.length ≤ st.observers.length + 1) := by
+    intro n c hn hcn hsd hst hfs
+    rw [hfs]
+    have hd' : st.disposed = false := by rw [h.disp]; exact hsd
+    have hs' : st.stopped = false := by rw [h.stop, hsd, hst]; rfl
+    rw [call_term_live hc st n hn c hcn (f + 3) hd' hs' (by omega)]
+    have fr := bcastTerm_frame n st.observers (termState st n) rfl
+    have lg := bcastTerm_log n st.observers hI.nodup (termState st n) i
+    obtain ⟨f1, f2, f3, f4, f5, f6⟩ := fr
+    have hexc : (termState st n).exception = match n with | .error e => some e | _ => none := by
+      have := h.noexc hs'
+      cases n <;> simp [termState, this]
+    refine ⟨⟨?_, ?_, ?_, ?_, ?_, ?_, ?_⟩, ?_, ?_⟩
+    · rw [f5]; simpa [termState] using h.disp
+    · rw [f4]; simp [termState]
+    · intro _ t ht
+      simp only [Option.some.injEq] at ht
+      subst ht
+      unfold termOf
+      rw [f6, hexc]
+      cases n with
+      | next x => simp [Notif.isTerminal] at hn
+      | error e => rfl
+      | completed => rfl
+    · rw [f2]
+      simp only [termState]
+      constructor
+      · intro ho
+        by_cases hl : s.o = .live
+        · simp [hl] at ho
+        · simp only [hl, if_false] at ho; exact h.fresh.mp ho
+      · intro hseen
+        have := h.fresh.mpr hseen
+        simp [this]
+    · rw [f1]
+      simp only [List.not_mem_nil, iff_false]
+      by_cases hl : s.o = .live <;> simp [hl]
+    · intro ho
+      by_cases hl : s.o = .live <;> simp [hl] at ho
+    · rw [f4]; simp [termState]
+    · rw [lg.1]
+      by_cases hl : s.o = .live
+      · have := h.liveOk hl
+        simp [hl, h.live.mp hl, termState, this.1]
+      · simp [hl, hnotlive hl, termState]
+    · rw [f1]; simp
+  cases c with
+  | next v =>
+    by_cases hdt : s.disp = true ∨ s.term.isSome = true
+    · exact hdead (.next v) (.next v) rfl hdt (by simp [flatStep, hdt])
+    · have hsd : s.disp = false := by
+        cases hh : s.disp with
+        | false => rfl
+        | true => exact absurd (Or.inl hh) hdt
+      have hst : s.term.isSome = false := by
+        cases hh : s.term.isSome with
+        | false => rfl
+        | true => exact absurd (Or.inr hh) hdt
+      have hd' : st.disposed = false := by rw [h.disp]; exact hsd
+      have hs' : st.stopped = false := by rw [h.stop, hsd, hst]; rfl
+      rw [call_next_live hc st v (f + 3) hd' hs' (by omega)]
+      have fr := bcastNext_frame (.next v) st.observers { st with raisedNow := none, tr := .emit (.next v) :: st.tr }
+      have lg := bcastNext_log (.next v) st.observers hI.nodup { st with raisedNow := none, tr := .emit (.next v) :: st.tr } i
+      obtain ⟨f1, f2, f3, f4, f5, f6, f7⟩ := fr
+      have hfs : flatStep i s (.next v) = (s, if s.o = .live then [.next v] else []) := by
+        simp [flatStep, hsd, hst]
+      rw [hfs]
+      refine ⟨h.congr f5 f4 f6 (by rw [f2]) (by rw [f1]) (by rw [f7]) (by rw [f3]), ?_, by rw [f1]; simp⟩
+      rw [lg]
+      by_cases hl : s.o = .live
+      · have := h.liveOk hl
+        simp [hl, h.live.mp hl, this.1]
+      · simp [hl, hnotlive hl]
+  | error e =>
+    by_cases hdt : s.disp = true ∨ s.term.isSome = true
+    · exact hdead (.error e) (.error e) rfl hdt (by simp [flatStep, hdt])
+    · have hsd : s.disp = false := by
+        cases hh : s.disp with
+        | false => rfl
+        | true => exact absurd (Or.inl hh) hdt
+      have hst : s.term = none := by
+        cases hh : s.term with
+        | none => rfl
+        | some t => exact absurd (Or.inr (by simp [hh])) hdt
+      exact hterm (.error e) (.error e) rfl rfl hsd hst (by simp [flatStep, hsd, hst])
+  | completed =>
+    by_cases hdt : s.disp = true ∨ s.term.isSome = true
+    · exact hdead .completed .completed rfl hdt (by simp [flatStep, hdt])
+    · have hsd : s.disp = false := by
+        cases hh : s.disp with
+        | false => rfl
+        | true => exact absurd (Or.inl hh) hdt
+      have hst : s.term = none := by
+        cases hh : s.term with
+        | none => rfl
+        | some t => exact absurd (Or.inr (by simp [hh])) hdt
+      exact hterm .completed .completed rfl rfl hsd hst (by simp [flatStep, hsd, hst])
+  | dispose =>
+    rw [call_dispose_eq cfg st (f + 3)]
+    simp only [flatStep, List.append_nil]
+    refine ⟨⟨by simp [subjDispose], by simp [subjDispose], by simp, ?_, ?_, ?_, by simp [subjDispose]⟩,
+      by simp [subjDispose], by simp [subjDispose]⟩
+    · simp only [subjDispose]
+      constructor
+      · intro ho
+        by_cases hl : s.o = .live
+        · simp [hl] at ho
+        · simp only [hl, if_false] at ho; exact h.fresh.mp ho
+      · intro hseen
+        have := h.fresh.mpr hseen
+        simp [this]
+    · simp only [subjDispose, List.not_mem_nil, iff_false]
+      by_cases hl : s.o = .live <;> simp [hl]
+    · intro ho
+      by_cases hl : s.o = .live <;> simp [hl] at ho
+  | unsub j =>
+    rw [call_unsub_eq cfg st j (f + 3)]
+    unfold doUnsub
+    by_cases hh : st.handle j = true
+    · simp only [hh, if_true]
+      unfold adoDispose
+      have hv := sadDispose_view { st with raisedNow := none, tr := .unsub j :: st.tr, adoStopped := upd st.adoStopped j true } j
+      obtain ⟨v1, v2, v3, v4, v5, v6, v7, v8⟩ := hv
+      by_cases hji : j = i
+      · subst hji
+        by_cases hl : s.o = .live
+        · -- the live observer unsubscribes: it is removed
+          have hmem := h.live.mp hl
+          have hlink := hI.link j hmem
+          have hcur : st.cur j = some .inner := by
+            rcases hlink.2 with h' | h'
+            · exact h'
+            · rw [hh] at h'; exact absurd h'.1 (by simp)
+          have hnd : st.disposed = false := by
+            cases hd : st.disposed with
+            | false => rfl
+            | true =>
+              have := hI.stopEmpty (hI.dispStop hd)
+              rw [this] at hmem; exact absurd hmem (by simp)
+          have hobs : (sadDispose { st with raisedNow := none, tr := .unsub j :: st.tr, adoStopped := upd st.adoStopped j true } j).observers = st.observers.erase j := by
+            simp [sadDispose, innerDispose, hlink.1, hcur, hnd]
+          simp only [flatStep, hl, and_self, if_true, List.append_nil]
+          refine ⟨⟨by rw [v1]; exact h.disp, by rw [v2]; exact h.stop, ?_, ?_, ?_, by simp, by rw [v2, v3]; exact h.noexc⟩,
+            by rw [v6], by rw [hobs]; exact Nat.le_trans (List.length_erase_le) (Nat.le_succ _)⟩
+          · intro hd t ht
+            have := h.term hd t ht
+            simpa [termOf, v3] using this
+          · rw [v4]
+            simp only [reduceCtorEq, false_iff]
+            have := hI.obsSeen j hmem
+            simp [this]
+          · rw [hobs]
+            simp only [reduceCtorEq, false_iff]
+            exact fun hm => (List.Nodup.mem_erase_iff hI.nodup).mp hm |>.1 rfl
+        · have hfs : flatStep j s (.unsub j) = (s, []) := by simp [flatStep, hl]
+          rw [hfs]
+          have hnm := hnotlive hl
+          have hobs : j ∈ (sadDispose { st with raisedNow := none, tr := .unsub j :: st.tr, adoStopped := upd st.adoStopped j true } j).observers ↔ j ∈ st.observers := by
+            rcases v8 with h' | h'
+            · rw [h']
+            · rw [h']
+              constructor
+              · exact fun hm => List.mem_of_mem_erase hm
+              · exact fun hm => absurd hm hnm
+          refine ⟨⟨by rw [v1]; exact h.disp, by rw [v2]; exact h.stop, ?_, by rw [v4]; exact h.fresh, by rw [hobs]; exact h.live,
+            fun ho => absurd ho hl, by rw [v2, v3]; exact h.noexc⟩, by rw [v6]; simp, ?_⟩
+          · intro hd t ht
+            have := h.term hd t ht
+            simpa [termOf, v3] using this
+          · rcases v8 with h' | h' <;> rw [h']
+            · simp
+            · exact Nat.le_trans (List.length_erase_le) (Nat.le_succ _)
+      · -- somebody else unsubscribes
+        have hfs : flatStep i s (.unsub j) = (s, []) := by simp [flatStep, hji]
+        rw [hfs]
+        have hobs : i ∈ (sadDispose { st with raisedNow := none, tr := .unsub j :: st.tr, adoStopped := upd st.adoStopped j true } j).observers ↔ i ∈ st.observers := by
+          rcases v8 with h' | h'
+          · rw [h']
+          · rw [h']
+            exact List.mem_erase_of_ne (fun e => hji e.symm)
+        have hij : i ≠ j := fun e => hji e.symm
+        refine ⟨⟨by rw [v1]; exact h.disp, by rw [v2]; exact h.stop, ?_, by rw [v4]; exact h.fresh, by rw [hobs]; exact h.live,
+          ?_, by rw [v2, v3]; exact h.noexc⟩, by rw [v6]; simp, ?_⟩
+        · intro hd t ht
+          have := h.term hd t ht
+          simpa [termOf, v3] using this
+        · intro ho
+          rw [v5, v7]
+          simpa [hij] using h.liveOk ho
+        · rcases v8 with h' | h' <;> rw [h']
+          · simp
+          · exact Nat.le_trans (List.length_erase_le) (Nat.le_succ _)
+    · have hh' : st.handle j = false := by simpa using hh
+      simp only [hh', Bool.false_eq_true, if_false]
+      have hfs : flatStep i s (.unsub j) = (s, []) := by
+        simp only [flatStep]
+        split
+        · rename_i hc'
+          obtain ⟨rfl, hl⟩ := hc'
+          have := (h.liveOk hl).2
+          rw [hh'] at this; exact absurd this (by simp)
+        · rfl
+      rw [hfs]
+      exact ⟨h.congr rfl rfl rfl rfl Iff.rfl rfl rfl, by simp, by simp⟩
+  | sub j =>
+    rw [call_sub_eq hc st hI j f]
+    by_cases hj : st.seen j = true
+    · -- a second subscribe of the same observer id: ignored
+      rw [if_pos hj]
+      have hfs : flatStep i s (.sub j) = (s, []) := by
+        simp only [flatStep]
+        split
+        · rename_i hc'
+          obtain ⟨rfl, ho⟩ := hc'
+          have := h.fresh.mp ho
+          rw [hj] at this; exact absurd this (by simp)
+        · rfl
+      rw [hfs]
+      exact ⟨h.congr rfl rfl rfl rfl Iff.rfl rfl rfl, by simp, by simp⟩
+    · have hj' : st.seen j = false := by simpa using hj
+      have hfr := hI.fresh j hj'
+      have hjobs : j ∉ st.observers := fun hm => by
+        have := hI.obsSeen j hm; rw [hj'] at this; exact absurd this (by simp)
+      rw [if_neg hj]
+      -- what i's own reading says
+      have hfs_other : j ≠ i → flatStep i s (.sub j) = (s, []) := by
+        intro hji; simp [flatStep, hji]
+      by_cases hd : st.disposed = true
+      · rw [if_pos hd]
+        have fv := finish_view (callback { st with raisedNow := none, seen := upd st.seen j true, adoStopped := upd st.adoStopped j true } j (.error disposedExn)) j none
+        obtain ⟨v1, v2, v3, v4, v5, v6, v7, v7', v8⟩ := fv
+        have hobs : (finish (callback { st with raisedNow := none, seen := upd st.seen j true, adoStopped := upd st.adoStopped j true } j (.error disposedExn)) j none).observers = st.observers := by
+          rcases v8 with h' | h'
+          · rw [h']; rfl
+          · rw [h']; simp only [callback]; exact List.erase_of_not_mem hjobs
+        by_cases hji : j = i
+        · subst hji
+          have hso : s.o = .fresh := h.fresh.mpr hj'
+          have hsd : s.disp = true := by rw [← h.disp]; exact hd
+          have hfs : flatStep j s (.sub j) = ({ s with o := .done }, [.error disposedExn]) := by
+            simp [flatStep, hso, hsd]
+          rw [hfs]
+          refine ⟨⟨by rw [v1]; exact h.disp, by rw [v2]; exact h.stop, ?_, ?_, ?_, by simp, by rw [v2, v3]; exact h.noexc⟩, ?_, by rw [hobs]; simp⟩
+          · intro hdd; rw [hsd] at hdd; exact absurd hdd (by simp)
+          · rw [v4]; simp [callback]
+          · rw [hobs]; simp [hjobs]
+          · rw [v6]; simp [callback]
+        · rw [hfs_other hji]
+          have hij : i ≠ j := fun e => hji e.symm
+          refine ⟨h.congr v1 v2 v3 (by rw [v4]; simp [callback, hij]) (by rw [hobs]) (by rw [v5]; simp [callback, hij])
+            (by rw [v7 i hij]; rfl), by rw [v6]; simp [callback, hij], by rw [hobs]; simp⟩
+      · have hd' : st.disposed = false := by simpa using hd
+        have hsd : s.disp = false := by rw [← h.disp]; exact hd'
+        rw [if_neg hd]
+        by_cases hs : st.stopped = true
+        · -- late subscriber
+          rw [if_neg (by simp [hs])]
+          have sv := sadDispose_view (callback { st with raisedNow := none, seen := upd st.seen j true, adoStopped := upd st.adoStopped j true } j (termOf st)) j
+          have fv := finish_view (sadDispose (callback { st with raisedNow := none, seen := upd st.seen j true, adoStopped := upd st.adoStopped j true } j (termOf st)) j) j (some .noop)
+          obtain ⟨w1, w2, w3, w4, w5, w6, w7, w8⟩ := sv
+          obtain ⟨v1, v2, v3, v4, v5, v6, v7, v7', v8⟩ := fv
+          have hobs0 : st.observers = [] := hI.stopEmpty hs
+          have hobs : (finish (sadDispose (callback { st with raisedNow := none, seen := upd st.seen j true, adoStopped := upd st.adoStopped j true } j (termOf st)) j) j (some .noop)).observers = [] := by
+            have e1 : (sadDispose (callback { st with raisedNow := none, seen := upd st.seen j true, adoStopped := upd st.adoStopped j true } j (termOf st)) j).observers = [] := by
+              rcases w8 with h' | h' <;> rw [h'] <;> simp [callback, hobs0]
+            rcases v8 with h' | h' <;> rw [h', e1] <;> simp
+          by_cases hji : j = i
+          · subst hji
+            have hso : s.o = .fresh := h.fresh.mpr hj'
+            have hterm : ∃ t, s.term = some t := by
+              have := h.stop
+              rw [hs, hsd] at this
+              cases ht : s.term with
+              | none => simp [ht] at this
+              | some t => exact ⟨t, rfl⟩
+            obtain ⟨t, ht⟩ := hterm
+            have htt : termOf st = t := h.term hsd t ht
+            have hfs : flatStep j s (.sub j) = ({ s with o := .done }, [t]) := by
+              simp [flatStep, hso, hsd, ht]
+            rw [hfs]
+            refine ⟨⟨by rw [v1, w1]; exact h.disp, by rw [v2, w2]; exact h.stop, ?_, ?_, ?_, by simp, by rw [v2, w2, v3, w3]; exact h.noexc⟩, ?_, by rw [hobs]; simp⟩
+            · intro hdd t' ht'
+              have := h.term hdd t' ht'
+              rw [termOf_congr (show _ = st.exception by rw [v3, w3]; rfl)]
+              exact this
+            · rw [v4, w4]; simp [callback]
+            · rw [hobs]; simp
+            · rw [v6, w6, htt]; simp [callback]
+          · rw [hfs_other hji]
+            have hij : i ≠ j := fun e => hji e.symm
+            refine ⟨h.congr (by rw [v1, w1]; rfl) (by rw [v2, w2]; rfl) (by rw [v3, w3]; rfl) (by rw [v4, w4]; simp [callback, hij])
+              (by rw [hobs, hobs0]) (by rw [v5, w5]; simp [callback, hij]) (by rw [v7 i hij, w7]; rfl),
+              by rw [v6, w6]; simp [callback, hij], by rw [hobs]; simp⟩
+        · -- live subscription
+          have hs' : st.stopped = false := by simpa using hs
+          rw [if_pos (by simp [hs'])]
+          have hfin : finish { st with raisedNow := none, seen := upd st.seen j true, observers := st.observers ++ [j], tr := .sub j :: st.tr } j (some .inner) =
+              { st with raisedNow := none, seen := upd st.seen j true, observers := st.observers ++ [j], tr := .sub j :: st.tr, cur := upd st.cur j (some .inner), handle := upd st.handle j true } := by
+            simp [finish, hfr.2.2.1]
+          rw [hfin]
+          by_cases hji : j = i
+          · subst hji
+            have hso : s.o = .fresh := h.fresh.mpr hj'
+            have hst : s.term = none := by
+              have := h.stop
+              rw [hs', hsd] at this
+              cases ht : s.term with
+              | none => rfl
+              | some t => simp [ht] at this
+            have hfs : flatStep j s (.sub j) = ({ s with o := .live }, []) := by
+              simp [flatStep, hso, hsd, hst]
+            rw [hfs]
+            refine ⟨⟨h.disp, h.stop, ?_, by simp, by simp, fun _ => ⟨hfr.1, by simp⟩, h.noexc⟩, by simp, by simp⟩
+            intro hdd t ht
+            rw [hst] at ht; exact absurd ht (by simp)
+          · rw [hfs_other hji]
+            have hij : i ≠ j := fun e => hji e.symm
+            refine ⟨h.congr rfl rfl rfl (by simp [hij]) (by simp [hij]) rfl (by simp [hij]), by simp, by simp⟩
+
+end Subj
+
+namespace Subj
+variable {α : Type}
+
+theorem run_flat_aux {cfg : Cfg} (hc : FlatCfg cfg) (i : Id) (fuel : Nat) (v : Option α) (cs : List (Call α)) :
+    ∀ (st : St α) (s : Flat α), Reachable cfg v st [] → Sim i st s →
+      2 * (st.observers.length + cs.length) + 4 ≤ fuel →
+      (run cfg fuel st cs).1.log i = st.log i ++ flatLog i s cs := by
+  induction cs with
+  | nil => intro st s _ _ _; simp [run, flatLog]
+  | cons c cs ih =>
+    intro st s hr hs hf
+    have hI := (reachable_inv hr).1
+    have hcall := call_sim hc i hI hs c fuel (by simp at hf; omega)
+    have hr' : Reachable cfg v (call cfg fuel st c) [] := call_reach fuel c hr
+    have := ih (call cfg fuel st c) (flatStep i s c).1 hr' hcall.1 (by
+      have := hcall.2.2
+      simp only [List.length_cons] at hf
+      omega)
+    simp only [run, flatLog]
+    rw [this, hcall.2.1, List.append_assoc]
+
+/-- **Closed form for flat histories.**  For a plain Subject whose observers' callbacks only record
+(no reactions, every observer has an `on_error` handler), after *any* history (with enough fuel to run
+it) every observer has seen exactly what its own three-state reading of the history says. -/
+theorem run_flat {cfg : Cfg} (hc : FlatCfg cfg) (i : Id) (calls : List (Call α)) (fuel : Nat)
+    (hf : 2 * calls.length + 4 ≤ fuel) :
+    (run cfg fuel (init cfg none) calls).1.log i = flatLog i {} calls := by
+  have hinit : (init cfg (none : Option α)) = {} := by simp [init, hc.kind]
+  have hsim : Sim i (init cfg (none : Option α)) ({} : Flat α) := by
+    rw [hinit]
+    exact ⟨rfl, rfl, fun _ t ht => by simp at ht, by simp, by simp, fun ho => by simp at ho, fun _ => rfl⟩
+  have := run_flat_aux hc i fuel none calls (init cfg none) {} Reach.init hsim (by rw [hinit]; simp; omega)
+  rw [this, hinit]
+  simp
 
 end Subj
